@@ -142,6 +142,21 @@ pub fn drive_c14(out: &mut dyn std::io::Write, seed: u64, thorough: bool) {
             }
         }
     }
+    // the same state asked for its block with every double-round count, back to back on fresh instances (a block must depend on
+    // the round count even when key, nonce and position coincide with the previous request)
+    {
+        let key = rng.bytes(32);
+        let nonce = rng.bytes(8);
+        for wide in [false, true] {
+            for dr in 0..=10u32 {
+                if let Some(mut g) = G::new(out, &key, &nonce, "samestate") {
+                    g.setp(out, 0, 0xffff_fffe);
+                    if wide { g.refill4(out, dr) } else { g.refill(out, dr) }
+                    g.refill(out, 10 - dr);
+                }
+            }
+        }
+    }
     // all-ones / all-zero keys, stream id words at their extremes (a carry must never reach them)
     for (key, sid) in [(vec![0xffu8; 32], u64::MAX), (vec![0u8; 32], 0), (vec![0xffu8; 32], 0xffff_ffff)] {
         if let Some(mut g) = G::new(out, &key, &[0u8; 8], "extreme") {
@@ -197,6 +212,42 @@ pub fn drive_c15(out: &mut dyn std::io::Write, seed: u64, thorough: bool) {
                 g.refill(out, 10);
                 g.getp(out, 0);
             }
+        }
+    }
+    // parameter aliasing: the same value written to both parameters (both orders), a parameter set to the other one's current
+    // value, and a parameter "set" to the value it already has - each followed by reads of both and by output
+    for &v in vals.iter() {
+        for order in 0..2u32 {
+            let key = rng.bytes(32);
+            let nonce = rng.bytes(if order == 0 { 8 } else { 12 });
+            if let Some(mut g) = G::new(out, &key, &nonce, "alias") {
+                g.setp(out, order, v);
+                g.setp(out, 1 - order, v);
+                g.getp(out, 0);
+                g.getp(out, 1);
+                g.refill(out, 3);
+                let cur0 = g.c.get_stream_param(0);
+                g.setp(out, 1, cur0); // stream id := current counter
+                g.getp(out, 1);
+                let cur1 = g.c.get_stream_param(1);
+                g.setp(out, 0, cur1); // counter := current stream id
+                g.setp(out, 0, cur1); // and again (already in place)
+                g.getp(out, 0);
+                g.refill4(out, 2);
+            }
+        }
+    }
+    // fresh state with a non-zero nonce: select stream 0 / counter 0 explicitly
+    for nl in [8usize, 12] {
+        let key = rng.bytes(32);
+        let nonce = vec![0x5au8; nl];
+        if let Some(mut g) = G::new(out, &key, &nonce, "alias0") {
+            g.setp(out, 1, 0);
+            g.getp(out, 1);
+            g.refill(out, 10);
+            g.setp(out, 0, 0);
+            g.getp(out, 0);
+            g.refill(out, 10);
         }
     }
     // equality: pairs differing in TWO words by the same XOR delta (differences must not cancel), and complemented keys
